@@ -15,3 +15,4 @@ INVARIANT QuiescentIsDefault
 PROPERTY Restores
 PROPERTY Isolation
 PROPERTY RefusedIsNoop
+PROPERTY InnerFaultIsNoop
